@@ -43,6 +43,7 @@ void engineActor(const std::vector<std::string> &, const std::vector<std::string
     auto server = std::make_unique<ScriptServer>();
     std::map<std::string, Obj> objs;
     std::vector<std::string> order;   // creation order, for polls and destruction
+    std::vector<QObject *> keptGhosts;
 
     auto need = [&](const std::string &name, const std::string &kind) -> QObject * {
         auto it = objs.find(name);
@@ -96,6 +97,13 @@ void engineActor(const std::vector<std::string> &, const std::vector<std::string
             }
             objs[name] = o;
             order.push_back(name);
+        } else if (w[0] == "GHOST+" && w.size() == 4 && w[1] == "resolver") {
+            // a bystander resolver that stays: connected to the server (and the shared cache) before the object under test,
+            // it stores the same records first; it never sends anything after its creation and its reports go nowhere
+            g_mute = true;
+            keptGhosts.push_back(new Resolver(server.get(), io::bstrOfTok(w[2]), cacheOrNull(w[3])));
+            g_mute = false;
+            continue;
         } else if (w[0] == "GHOST" && w.size() >= 2) {
             // a bystander of the given kind on the same server (and cache) is created and destroyed at once; whatever it
             // sends itself is not traced, and the operation has no group of its own: the objects under test must neither
@@ -168,6 +176,7 @@ void engineActor(const std::vector<std::string> &, const std::vector<std::string
         }
         outLine(".");
     }
+    for (QObject *g : keptGhosts) delete g;
     // destroy what is left, newest first (a provider before the hostname it uses), then the server
     for (auto it = order.rbegin(); it != order.rend(); ++it) {
         Obj &o = objs[*it];
